@@ -134,6 +134,8 @@ func specRpqInWindow(q *receivePayloadQueue, t uint32) bool {
 //@ pred rpqCount(q)
 //@   clause#count q.chunkSize >= 0 && (q.chunkSize == 0 ==> q.tailTSN == q.cumulativeTSN) && (q.chunkSize > 0 ==> specRpqHas(q, q.tailTSN))
 
+//@ objinv{C05,C03,C01,C11,C16} receivePayloadQueue : rpqInv ; constructors newReceivePayloadQueue
+
 //@ func receivePayloadQueue.hasChunk
 //@   requires rpqInv(q)
 //@   requires rpqCount(q)
